@@ -106,7 +106,11 @@ theorem connect_callback_exact (timeo : Bool) (addrs : List AddrOutcome) (fd : N
       | some none => [-1]
       | none => [] := by
   rw [run_eq_runAll, cbs_runAll]
-  simp
+  cases firstSuccess timeo addrs 0 with
+  | none => rfl
+  | some o => cases o with
+    | none => rfl
+    | some i => simp
 
 /-- **connect, order**: addresses are tried strictly in list order, one socket each -/
 theorem connect_in_order (timeo : Bool) (addrs : List AddrOutcome) (fd : Nat) :
@@ -124,13 +128,17 @@ theorem connect_closes_failed (timeo : Bool) (addrs : List AddrOutcome) (fd : Na
       | some none => []
       | none => [fd + (addrs.takeWhile (· ≠ .hang)).length] := by
   rw [run_eq_runAll, stillOpen_runAll timeo addrs 0 fd [] (by simp)]
-  simp
+  cases firstSuccess timeo addrs 0 with
+  | none => simp
+  | some o => cases o with
+    | none => rfl
+    | some i => simp
 
 /-! ## non-vacuity -/
 
 example : runRead 100 (readInit 8 4) [.again, .data 1 [2], .again, .data 3 [4, 5], .data 6 []] =
     .done 5 { buflen := 8, minlen := 4, got := [1, 2, 3, 4, 5], calls := [(6, 3), (6, -1), (8, 2), (8, -1)] } [.data 6 []] := by
-  decide
+  rfl
 example : (run true [.failNow, .hang, .asyncFail, .success, .success] 20).1 =
     [.sock 20 0, .close 20, .sock 21 1, .close 21, .sock 22 2, .close 22, .sock 23 3, .cb 23] := by decide
 example : firstSuccess true [.failNow, .hang, .asyncFail, .success, .success] 0 = some (some 3) := by decide
